@@ -90,6 +90,16 @@ def render_py(rng, spec, out: Lines):
         elif kind == "property":
             out.code("    @property")
             out.code("    def view_%d(self):" % n)
+            if rng.random() < 0.4:
+                # the rest of the same property: its setter and deleter are not public methods either
+                out.code("        return self.base_%d" % n)
+                out.blank()
+                out.code("    @view_%d.setter" % n)
+                out.code("    def view_%d(self, value):" % n)
+                out.code("        self.base_%d = value" % n)
+                out.blank()
+                out.code("    @view_%d.deleter" % n)
+                out.code("    def view_%d(self):" % n)
         elif kind in ("dunder", "ctor"):
             dn = "__init__" if not seen_ctor else rng.choice(["__str__", "__repr__", "__len__", "__eq__", "__hash__"])
             if dn in names:
@@ -160,7 +170,8 @@ def render_ts(rng, spec, out: Lines, js=False):
         elif kind == "static":
             out.code("  static act_%d(a%s)%s {" % (n, ty(": number"), ty(": number")))
         elif kind in ("private", "property"):
-            out.code("  _hidden_%d(a%s)%s {" % (n, ty(": number"), ty(": number")))
+            # private by convention (_name), by the language (#name) or by the TypeScript modifier
+            out.code(rng.choice(["  _hidden_%d(a%s)%s {", "  _hidden_%d(a%s)%s {", "  #hidden_%d(a%s)%s {"] + ([] if js else ["  private hidden_%d(a%s)%s {"])) % (n, ty(": number"), ty(": number")))
         else:
             if seen_ctor:
                 out.code("  _hidden_%d(a%s)%s {" % (n, ty(": number"), ty(": number")))
